@@ -47,6 +47,7 @@ class Axes:
         self._returns = None
         self.tensor_attrs = self._tensor_attrs(fn)
         self.const_attrs = self._const_attrs(fn)
+        self._number_attrs = set()   # attributes known to hold a Python number on the current path (else of `isinstance(self.a, …Parameter)`)
 
     @staticmethod
     def _const_attrs(fn):
@@ -105,6 +106,8 @@ class Axes:
         if isinstance(e, ast.Call) and isinstance(e.func, ast.Name) and e.func.id in ('len', 'int', 'float'):
             return C
         if isinstance(e, ast.Attribute) and self_attr(e) in self.const_attrs:
+            return C
+        if isinstance(e, ast.Attribute) and self_attr(e) and self_attr(e) in self._number_attrs:
             return C
         if isinstance(e, ast.Attribute) and self_attr(e):
             return K if self_attr(e) in self.tensor_attrs else None
@@ -238,7 +241,25 @@ class Axes:
 
     @staticmethod
     def merge(a, b):
-        return {k: (a.get(k) if a.get(k) == b.get(k) else None) for k in set(a) | set(b)}
+        # a Python number (C) broadcasts with anything: where one branch binds a number and the other a tensor, the tensor's layout is the one that matters
+        def j(x, y, both):
+            if x == y:
+                return x
+            if both and x == C and y in (K, D):
+                return y
+            if both and y == C and x in (K, D):
+                return x
+            return None
+        return {k: j(a.get(k), b.get(k), k in a and k in b) for k in set(a) | set(b)}
+
+    @staticmethod
+    def _parameter_guard(test):
+        """`isinstance(self.a, AbstractParameter)` (or Parameter / a tuple of them): the attribute guarded, else None"""
+        if isinstance(test, ast.Call) and isinstance(test.func, ast.Name) and test.func.id == 'isinstance' and len(test.args) == 2 and self_attr(test.args[0]):
+            names = [x.id if isinstance(x, ast.Name) else x.attr for x in ast.walk(test.args[1]) if isinstance(x, (ast.Name, ast.Attribute))]
+            if names and all(n.endswith('Parameter') for n in names):
+                return self_attr(test.args[0])
+        return None
 
     def stmt(self, st, env):
         if isinstance(st, ast.Assign):
@@ -271,7 +292,12 @@ class Axes:
         if isinstance(st, ast.If):
             self._visit_exprs(st.test, env)
             a = self.block(st.body, dict(env))
+            guarded = self._parameter_guard(st.test)
+            saved = set(self._number_attrs)
+            if guarded:
+                self._number_attrs.add(guarded)
             b = self.block(st.orelse, dict(env))
+            self._number_attrs = saved
             return self.merge(a, b)
         if isinstance(st, (ast.For, ast.While)):
             body_env = dict(env)
